@@ -40,6 +40,9 @@ TrapOK(e) ==
        /\ Le(AbsI(V(i)), vm * S)                                                  \* speed within the velocity limit
        /\ (X(i) <= 0 => EqT(P(i), r.p0 * S) /\ EqT(V(i), Fx(e.ctx.v0)))           \* holds the boundary state before the start
        /\ (X(i) >= t => EqT(P(i), r.p1 * S) /\ EqT(V(i), Fx(e.ctx.v1)))           \* ... and after the end: reaches p1 with the recorded v1
+       \* the reported acceleration vanishes outside the motion and strictly inside the cruise phase
+       /\ OkVal(e.samples[i].a)
+       /\ ((X(i) < 0 \/ X(i) > t \/ (X(i) > ta /\ X(i) < td)) => Fx(e.samples[i].a) = 0)
   /\ \A i \in 1..(n - 1) :
        /\ X(i) <= X(i + 1)
        /\ Lip(P(i), P(i + 1), X(i), X(i + 1), vm)                                 \* position continuous, speed limit between samples
@@ -63,6 +66,7 @@ BellOK(e) ==
        /\ Le(AbsI(V(i)), vm * S) /\ Le(AbsI(A(i)), am * S) /\ Le(AbsI(J(i)), jm * S)   \* velocity, acceleration, jerk within their limits
        /\ (X(i) <= 0 => EqT(P(i), r.p0 * S) /\ EqT(V(i), v0c * S))
        /\ (X(i) >= t => EqT(P(i), r.p1 * S) /\ EqT(V(i), v1c * S))
+       /\ ((X(i) < 0 \/ X(i) > t) => A(i) = 0 /\ J(i) = 0)                          \* at rest in the higher derivatives outside the motion
   /\ \A i \in 1..(n - 1) :
        /\ X(i) <= X(i + 1)
        /\ Lip(P(i), P(i + 1), X(i), X(i + 1), vm)
